@@ -51,11 +51,11 @@ class Ctx:
     def remaining(self):
         return max(0.0, self.budget_s - (time.time() - self.t0))
 
-    def map(self, fname, tasks, budget_s=None, per_task_timeout=900.0):
+    def map(self, fname, tasks, budget_s=None, per_task_timeout=900.0, force=False):
         """Run module.<fname>(task) for each task on the pool.  Returns list of (task, res) for
         tasks that ran and succeeded; harness errors are collected separately."""
         tasks = list(tasks)
-        b = self.remaining() if budget_s is None else min(budget_s, self.remaining())
+        b = self.remaining() if budget_s is None else (budget_s if force else min(budget_s, self.remaining()))
         results, skipped = proc.run_tasks(self.pool, self.module, fname, tasks, b, per_task_timeout)
         out = []
         for i in sorted(results):
@@ -65,6 +65,7 @@ class Ctx:
             else:
                 self.harness_errors.append({"task": _brief(tasks[i]), "error": r.get("harness_error", "?")[-1500:]})
         self.last_skipped = skipped
+        self.tasks_run = getattr(self, "tasks_run", 0) + len(results)
         return out
 
 
@@ -191,7 +192,7 @@ def run_check(prop, tier, seed):
         print("HARNESS-ERROR: %d alarm(s) did not reproduce on replay; see evidence" % len(unreproduced))
         return 2
     total = cov.get("evaluations", 0)
-    if ctx.harness_errors and (total == 0 or len(ctx.harness_errors) > max(3, total // 20)):
+    if ctx.harness_errors and (total == 0 or len(ctx.harness_errors) > max(2, getattr(ctx, "tasks_run", 0) // 100)):
         print("HARNESS-ERROR: %d harness errors (first: %s)" % (len(ctx.harness_errors), ctx.harness_errors[0]["error"][-600:]))
         return 2
     print("OK property=%s tier=%s seed=%s evaluations=%s distinct_nontrivial=%s wall=%.0fs" % (
